@@ -201,19 +201,13 @@ def run(ctx):
 
     with ctx.rule("C03.R5", "T1", "a targeted (sync) response to a remote that is not linked links it first: Linked before the data", floor=3) as r:
         he = ctx.saw(rt.fn(name="handle_event", self_adt="task::WriteTaskState"))
-        isl = [c for c in he.calls if c.is_method("links::Links", "is_linked")]
+        # the decision `not linked yet` is about this (remote, lane) pair, and `linked` goes out before the snapshot (shared with C04.R8)
+        sp, pws = uplinks.implicit_link_rule(r, ctx, rt, he)
         ins = [c for c in he.calls if c.is_method("links::Links", "insert")]
-        sp = [c for c in he.calls if c.name == "push_special"]
-        if len(isl) != 1 or len(ins) != 1 or len(sp) != 1:
-            raise AnchorMissing("handle_event: implicit link sites")
-        be = he.bool_edges(isl[0])
-        r.check(be is not None and he.dominates(be[1], ins[0].block) and he.dominates(ins[0].block, sp[0].block), "handle_event/not-linked=>insert-then-Linked", isl[0].loc(), "on the not-linked edge: links.insert, then push_special(Linked(id))")
-        pws = [c for c in he.calls if c.name == "push_write" and he.dominates(sp[0].block, c.block)]
-        r.check(len(pws) == 1, "handle_event/data-after-Linked", sp[0].loc(), "the data is queued after the Linked special", "no push_write after the implicit Linked")
         fr = [c for c in he.calls if c.via_name == "from" and "Writes" in c.defpath and he.dominates(sp[0].block, c.block)]
         r.check(bool(fr) and describe_operand(he, fr[0].args[0]).startswith("tuple(push_special("), "handle_event/pair-order", where(he), "the pair is (linked, data)")
-        g = dom_guards(he, isl[0].block)
-        r.check(any(l == "Some" and "target" in d for d, l, _ in g), "handle_event/only-for-targeted", isl[0].loc(), "implicit linking only for targeted responses")
+        g = dom_guards(he, ins[0].block)
+        r.check(any(l == "Some" and "target" in d for d, l, _ in g), "handle_event/only-for-targeted", ins[0].loc(), "implicit linking only for targeted responses")
 
     with ctx.rule("C03.R6", "T1", "perform_write: a synced marker follows all queued data of the lane", floor=3) as r:
         pw = ctx.saw(rt.fn(suffix="write_fut::perform_write::{closure#0}"))
